@@ -813,3 +813,159 @@ Lemma ex_nonvacuous :
                 (combine [9; 10; 13; 17] [10; 10; 10; 10]%Q)
   = combine [9; 10; 13; 17] [10 - 0; 10 - 1; 10 - 1; 10 - -1]%Q.
 Proof. split; [split; [cbn; lia|reflexivity]|]. split; [discriminate|reflexivity]. Qed.
+
+(* ---- transform is a function of (fitted state after the fit / update history, series) ---------- *)
+Section HistoryFacts.
+  Variable ST : Type.
+  Variable fit : series -> ST.
+  Variable update : ST -> series -> bool -> ST.
+  Variable transform inverse : ST -> series -> series.
+  Notation stp := (step ST fit update).
+  Notation rn := (run ST fit update).
+  Notation ans := (answer ST fit update transform inverse).
+
+  Lemma step_query st o : is_query o = true -> stp st o = st.
+  Proof. destruct o; cbn; intro H; try discriminate; reflexivity. Qed.
+
+  Lemma fold_strip : forall h st, fold_left stp h st = fold_left stp (strip h) st.
+  Proof.
+    induction h as [|o h IH]; intro st; [reflexivity|].
+    cbn [fold_left strip filter]. destruct (is_query o) eqn:E; cbn [negb].
+    - rewrite step_query by exact E. apply IH.
+    - cbn [fold_left]. apply IH.
+  Qed.
+
+  (* the transform / inverse_transform calls of a history have no influence on the state *)
+  Lemma transform_calls_do_not_change_state h : rn h = rn (strip h).
+  Proof. unfold run. apply fold_strip. Qed.
+
+  Lemma answer_strip h q : ans h q = ans (strip h) q.
+  Proof. unfold answer. rewrite transform_calls_do_not_change_state. reflexivity. Qed.
+
+  (* two histories with the same fit / update calls give the same answer to every call *)
+  Lemma answer_independent_of_call_history h h' q : strip h = strip h' -> ans h q = ans h' q.
+  Proof. intro E. rewrite (answer_strip h), (answer_strip h'), E. reflexivity. Qed.
+
+  Lemma run_app h1 h2 : rn (h1 ++ h2) = fold_left stp h2 (rn h1).
+  Proof. unfold run. apply fold_left_app. Qed.
+
+  Lemma fold_queries : forall qs st, forallb is_query qs = true -> fold_left stp qs st = st.
+  Proof.
+    induction qs as [|o qs IH]; intros st H; [reflexivity|].
+    cbn [forallb] in H. apply andb_prop in H. destruct H as [H1 H2].
+    cbn [fold_left]. rewrite step_query by exact H1. apply IH. exact H2.
+  Qed.
+
+  Lemma run_queries h qs : forallb is_query qs = true -> rn (h ++ qs) = rn h.
+  Proof. intro H. rewrite run_app. apply fold_queries. exact H. Qed.
+
+  (* an invariant of the reachable states (e.g. "seasonal_ has sp non-zero entries") *)
+  Variable Inv : ST -> Prop.
+  Hypothesis inv_fit : forall y, Inv (fit y).
+  Hypothesis inv_update : forall s z p, Inv s -> Inv (update s z p).
+
+  Lemma run_inv : forall h s, rn h = Some s -> Inv s.
+  Proof.
+    intro h. unfold run.
+    assert (G : forall st, (forall s, st = Some s -> Inv s) ->
+                forall s, fold_left stp h st = Some s -> Inv s).
+    { induction h as [|o h IH]; intros st Hst s H; cbn [fold_left] in H; [apply Hst; exact H|].
+      apply (IH (stp st o)); [|exact H].
+      intros s' E. destruct o; cbn in E.
+      - inversion E. apply inv_fit.
+      - destruct st as [s0|]; [|discriminate]. inversion E. apply inv_update. apply Hst. reflexivity.
+      - apply Hst. exact E.
+      - apply Hst. exact E. }
+    apply G. intros s E. discriminate.
+  Qed.
+
+  Hypothesis rt : forall s z, Inv s -> seq_eq (inverse s (transform s z)) z.
+
+  (* after ANY history h (fits, updates with either flag, earlier transform / inverse calls), what
+     transform(z) returns, handed to inverse_transform - directly or after further queries qs -
+     comes back as z: the inverse is taken with the CURRENT state, which is the one transform used *)
+  Lemma roundtrip_after_any_history h qs z zt :
+    forallb is_query qs = true -> ans h (Transform z) = Some zt ->
+    exists zi, ans (h ++ Transform z :: qs) (Inverse zt) = Some zi /\ seq_eq zi z.
+  Proof.
+    intros Hq Ha. unfold answer in *.
+    assert (E : rn (h ++ Transform z :: qs) = rn h).
+    { apply (run_queries h (Transform z :: qs)). cbn [forallb is_query]. exact Hq. }
+    rewrite E. destruct (rn h) as [s|] eqn:Es; [|discriminate].
+    inversion Ha; subst zt. eexists. split; [reflexivity|].
+    apply rt. apply (run_inv h). exact Es.
+  Qed.
+End HistoryFacts.
+
+(* ---- transform of a sub-stretch = restriction of transform of the whole ------------------------ *)
+Lemma arr_op_is_tmap f (G : Z -> Q) s :
+  series_arr_op f s (map G (sindex s)) = tmap (fun t x => f x (G t)) s.
+Proof.
+  induction s as [|[t x] s IH]; [reflexivity|].
+  cbn [sindex map series_arr_op tmap fst snd]. f_equal. exact IH.
+Qed.
+
+Lemma tmap_restrict F keep s : tmap F (restrict keep s) = restrict keep (tmap F s).
+Proof.
+  unfold restrict, tmap. induction s as [|[t x] s IH]; [reflexivity|].
+  cbn [filter map fst snd]. destruct (keep t); cbn [map fst snd]; rewrite IH; reflexivity.
+Qed.
+
+Lemma des_transform_is_tmap d s :
+  des_transform d s =
+  tmap (fun t x => op_fwd (d_model d) x (comp_at (d_seasonal d) (d_t0 d) (d_sp d) t)) s /\
+  des_inverse d s =
+  tmap (fun t x => op_inv (d_model d) x (comp_at (d_seasonal d) (d_t0 d) (d_sp d) t)) s.
+Proof.
+  unfold des_transform, des_inverse, align_seasonal. rewrite map_map.
+  split; apply (arr_op_is_tmap _ (fun t => comp_at (d_seasonal d) (d_t0 d) (d_sp d) t)).
+Qed.
+
+Lemma det_transform_is_tmap trend s :
+  det_transform trend s = tmap (fun t x => x - trend t)%Q s /\
+  det_inverse trend s = tmap (fun t x => x + trend t)%Q s.
+Proof. unfold det_transform, det_inverse, predict_at. split; apply arr_op_is_tmap. Qed.
+
+Lemma des_restrict d keep s :
+  des_transform d (restrict keep s) = restrict keep (des_transform d s) /\
+  des_inverse d (restrict keep s) = restrict keep (des_inverse d s).
+Proof.
+  rewrite !(proj1 (des_transform_is_tmap d _)), !(proj2 (des_transform_is_tmap d _)).
+  split; apply tmap_restrict.
+Qed.
+
+Lemma det_restrict trend keep s :
+  det_transform trend (restrict keep s) = restrict keep (det_transform trend s) /\
+  det_inverse trend (restrict keep s) = restrict keep (det_inverse trend s).
+Proof.
+  rewrite !(proj1 (det_transform_is_tmap trend _)), !(proj2 (det_transform_is_tmap trend _)).
+  split; apply tmap_restrict.
+Qed.
+
+Lemma pw_restrict f keep s : pw_apply f (restrict keep s) = restrict keep (pw_apply f s).
+Proof. apply tmap_restrict. Qed.
+
+Lemma opt_restrict b (f : series -> series) keep s :
+  f (restrict keep s) = restrict keep (f s) ->
+  opt_apply b f (restrict keep s) = restrict keep (opt_apply b f s).
+Proof. intro H. destruct b; cbn [opt_apply]; [reflexivity|exact H]. Qed.
+
+(* a contiguous sub-stretch is a restriction: the stretch [a, b) of a series *)
+Lemma restrict_contiguous_example :
+  restrict (fun t => (3 <=? t) && (t <? 5)) (contiguous 1 [10; 11; 12; 13; 14; 15]%Q)
+  = contiguous 3 [12; 13]%Q.
+Proof. reflexivity. Qed.
+
+(* WITNESS: the memoising Detrender violates the round trip on the training series after a refit *)
+Lemma memoised_trend_refuted :
+  exists st0 y refitted,
+    let '(yt1, st1) := memo_transform st0 y in           (* fit_transform: remembers the trend *)
+    let st2 := memo_update st1 refitted in                (* update(update_params=True) *)
+    let '(yt2, st3) := memo_transform st2 y in           (* transform(train): the OLD trend *)
+    ~ (val_at (memo_inverse st3 yt2) 0 == val_at y 0)%Q   (* inverse: the NEW trend *)
+    /\ ~ (val_at yt2 0 == val_at (det_transform refitted y) 0)%Q.
+Proof.
+  exists {| m_trend := fun _ => 0%Q; m_train := [0; 1]; m_cache := None |},
+         (contiguous 0 [1; 2]%Q), (fun _ => 1%Q).
+  vm_compute. split; discriminate.
+Qed.
